@@ -6,6 +6,7 @@ ids=${@:-$(ls seeded | grep '^S-')}
 one() {
   id=$1; V=$2
   prop=$(python3 -c "import json; print(json.load(open('$V/seeded/$id/meta.json'))['property'])")
+  if python3 -c "import json,sys; sys.exit(0 if json.load(open('$V/seeded/$id/meta.json')).get('superseded') else 1)"; then echo "RECHECK $id: superseded by a later repair in the same function (see meta.json); skipped"; return; fi
   wt=/tmp/sr_$id
   git -C /repo worktree add -q --detach $wt HEAD 2>/dev/null || { echo "RECHECK $id: cannot create worktree"; return; }
   if git -C $wt apply $V/seeded/$id/patch.diff 2>/dev/null; then
